@@ -318,13 +318,13 @@ Fixpoint rspec_violated (prev : robs) (ops : list rop) (obss : list robsr) : boo
 (* The driver records, after every operation, only what CHANGED in the observable (the literals are large):
    instance states, the processes whose observable differs from the previous one, the keys that disappeared.
    `rrebuild` reconstructs the full observation; the evaluators below work on full observations. *)
-Definition robs_d := (list (Z * Z) * list (Z * pobs) * list Z)%type.
+Definition robs_d := (option (list (Z * Z)) * list (Z * pobs) * list Z)%type.
 Inductive robsr_d := RdOk (d : robs_d) | RdCrash (k : crash).
 
 Definition rrebuild (prev : robs) (d : robs_d) : robs :=
   match d with
   | (adms, changed, deleted) =>
-      (adms,
+      (match adms with Some a => a | None => fst prev end,
        ksort (changed ++ filter (fun kp => negb (zmem (fst kp) deleted)
                                            && negb (existsb (fun c => Z.eqb (fst c) (fst kp)) changed)) (snd prev)))
   end.
@@ -393,6 +393,10 @@ Definition enqueue_pub (n : cnode) (m : msg) : alist (list msg) :=
 Definition snapshot_of (t : alist tinfo) : list pinfo :=
   map (fun kt => (fst kt, fst (snd kt), snd (snd kt), false)) t.
 
+(* SupervisorProxy.publish: `self.status.has_active_state()` on the sender side *)
+Definition sender_active (ni : cnode) (j : Z) : bool :=
+  match adm (cn_ctx ni) j with Some s => Node.has_active_state s | None => false end.
+
 Inductive action :=
 | LocalChange (i k : Z) (st : pstate) (e : bool)   (* i's Supervisor changes a process state *)
 | Deliver (i j : Z)                                (* i's proxy towards j handles its next publication *)
@@ -429,7 +433,7 @@ Definition cstep (c : cluster) (a : action) : result cluster :=
               match m with
               | MEvent k st e nm =>
                   (* SupervisorProxy.publish: only when the SENDER regards the peer as active *)
-                  if match adm (cn_ctx ni) j with Some s => Node.has_active_state s | None => false end then
+                  if sender_active ni j then
                     bind (rstep (cn_ctx nj) (ProcEvent i k st e nm now)) (fun ctx' =>
                       Ok (tick_clock (set_node c1 j (set_ctx nj ctx'))))
                   else Ok (tick_clock c1)
@@ -571,34 +575,36 @@ Definition running_true_at (c : cluster) (nj : cnode) : bool :=
 Definition running_true (c : cluster) : bool := forallb (fun jn => running_true_at c (snd jn)) (c_nodes c).
 
 (* ---------- when is a lost event harmful?  (the handshake window, as a predicate over the schedule) ---------- *)
-Definition overlay (tbl : list pinfo) (cur : Z -> option tinfo) : Z -> option tinfo :=
-  fun k => match find (fun pi => match pi with (k', _, _, _) => Z.eqb k' k end) (rev tbl) with
-           | Some (_, st, e, _) => Some (st, e)
-           | None => cur k
-           end.
+(* loading a snapshot, seen from one process key: the last entry for the key wins (add_info overwrites) *)
+Fixpoint overlay_k (tbl : list pinfo) (k : Z) (v : option tinfo) : option tinfo :=
+  match tbl with
+  | [] => v
+  | (k', st, e, _) :: r => overlay_k r k (if Z.eqb k' k then Some (st, e) else v)
+  end.
 
-(* What node j will hold about i's processes at the moment it admits i, if a handshake answer that it will
-   accept is already in its notification queue: the snapshots queued before the first acceptable
-   AUTHORIZATION, over the current view. None: no acceptable answer is queued (or it is a refusal). *)
-Fixpoint base_at_auth (i ct : Z) (ntf : list (Z * msg)) (cur : Z -> option tinfo) : option (Z -> option tinfo) :=
+(* What node j will hold about process k of instance i at the moment it admits i, if a handshake answer that it
+   will accept is already in its notification queue: the snapshots queued before the first acceptable
+   AUTHORIZATION, over the current view `v`. None: no acceptable answer is queued (or it is a refusal). *)
+Fixpoint base_at_auth (i ct : Z) (ntf : list (Z * msg)) (k : Z) (v : option tinfo) : option (option tinfo) :=
   match ntf with
   | [] => None
   | (i', m) :: r =>
       if Z.eqb i' i then
         match m with
-        | MSnapshot tbl _ => base_at_auth i ct r (overlay tbl cur)
-        | MAuth ok ts => if Z.ltb ct ts then (if ok then Some cur else None) else base_at_auth i ct r cur
-        | MEvent _ _ _ _ => base_at_auth i ct r cur
+        | MSnapshot tbl _ => base_at_auth i ct r k (overlay_k tbl k v)
+        | MAuth ok ts => if Z.ltb ct ts then (if ok then Some v else None) else base_at_auth i ct r k v
+        | MEvent _ _ _ _ => base_at_auth i ct r k v
         end
-      else base_at_auth i ct r cur
+      else base_at_auth i ct r k v
   end.
 
-(* the reference against which node j's knowledge of i is measured; None: j is outside any window for i *)
-Definition window_base (nj : cnode) (i : Z) : option (Z -> option tinfo) :=
-  let view := fun k => rvinfo (cn_ctx nj) k i in
+(* The reference against which node j's knowledge of (k, i) is measured. None: j is outside any window for i
+   (i is STOPPED / FAILED / ISOLATED there, or CHECKING without a handshake answer that will be accepted:
+   a complete handshake, with a snapshot read later, is still to come before j admits i). *)
+Definition window_base (nj : cnode) (i k : Z) : option (option tinfo) :=
   match adm (cn_ctx nj) i with
-  | Some Node.CHECKED | Some Node.IRUNNING => Some view
-  | Some Node.CHECKING => base_at_auth i (chk (cn_ctx nj) i) (cn_ntf nj) view
+  | Some Node.CHECKED | Some Node.IRUNNING => Some (rvinfo (cn_ctx nj) k i)
+  | Some Node.CHECKING => base_at_auth i (chk (cn_ctx nj) i) (cn_ntf nj) k (rvinfo (cn_ctx nj) k i)
   | _ => None
   end.
 
@@ -614,15 +620,19 @@ Fixpoint last_ev (k : Z) (q : list msg) : option tinfo :=
               end
   end.
 
-(* is the loss of the event (k, t) from i harmful for node j, `rest` being what i's queue towards j still holds? *)
-Definition loss_harmful (nj : cnode) (i k : Z) (t : tinfo) (rest : list msg) : bool :=
-  match window_base nj i with
-  | None => false                                            (* a full handshake is still to come *)
-  | Some base =>
-      match last_ev k rest with
-      | Some _ => false                                      (* superseded by a later event in the queue *)
-      | None => negb (option_eqb tinfo_eqb (base k) (Some t))  (* not already contained in the snapshot / view *)
-      end
+(* what the receiver ends up holding once the queued events are applied over `b` *)
+Definition final (k : Z) (q : list msg) (b : option tinfo) : option tinfo :=
+  match last_ev k q with Some t => Some t | None => b end.
+
+(* A process event of i about k does not reach node j's Context (filtered by the sender, refused by the
+   receiver, lost by the transport, or never queued). `tr` is what i's Supervisor reports for k after the step,
+   `rest` what i's queue towards j still holds. Harmful: j is inside a window for i and what it will end up
+   holding for (k, i) is not `tr`; i.e. the lost event is neither superseded by a queued one nor already
+   contained in the snapshot / view (lemma loss_harmless_iff). *)
+Definition loss_harmful (nj : cnode) (i k : Z) (tr : tinfo) (rest : list msg) : bool :=
+  match window_base nj i k with
+  | None => false
+  | Some b => negb (option_eqb tinfo_eqb (final k rest b) (Some tr))
   end.
 
 (* would node j's Context apply a process event (k) coming from i right now? *)
@@ -639,11 +649,12 @@ Definition harmful (c : cluster) (a : action) : bool :=
       | Some ni, Some nj =>
           match out_queue ni j with
           | MEvent k st e _ :: rest =>
-              let sent := match a with
-                          | Deliver _ _ => match adm (cn_ctx ni) j with Some s => Node.has_active_state s | None => false end
-                          | _ => false
-                          end in
-              if sent && would_apply nj i k then false else loss_harmful nj i k (st, e) rest
+              let sent := match a with Deliver _ _ => sender_active ni j | _ => false end in
+              if sent && would_apply nj i k then false
+              else match aget k (cn_truth ni) with
+                   | Some tr => loss_harmful nj i k tr rest
+                   | None => false
+                   end
           | _ => false
           end
       | _, _ => false
